@@ -1,9 +1,10 @@
 import Props.C10
-import Props.C09F
+import Props.C09D
 /-!
 C10 in binary storage with the per-field binary law discharged: for streams of registers whose
-fields are integers, ASCII literals and floats (any of the three IEEE widths), no premise about
-the fields is left beyond the decidable domain guard of C09.
+fields are integers, ASCII literals, floats (any of the three IEEE widths) and dates, no premise
+about the fields is left beyond the decidable domain guard of C09 (and, for dates, two facts
+about the declared formats).
 -/
 namespace Props.C10
 open Cfi Cfi.Text Spec.C10
@@ -24,5 +25,21 @@ theorem binary_nodate (items : List (RegDef × List Val))
   intro item hitem
   exact ⟨hcont item hitem, (hid item hitem).1, (hid item hitem).2, (hlen item hitem).1, (hlen item hitem).2,
     fun fv hfv => Props.C09.binLaw_of_domain fv.1 fv.2 (hdom item hitem fv hfv).1 (hdom item hitem fv hfv).2⟩
+
+/-- **C10, binary storage, every field kind**: the same for streams of registers that also have
+date fields (no empty format, a first format that does not end in white space; values
+admitted by `Spec.C09.fieldInDomain`: ASCII format, valid truncation, year at least 1000, text
+that fits). -/
+theorem binary_all (items : List (RegDef × List Val))
+    (hcont : ∀ item ∈ items, contiguous item.1 = true)
+    (hid : ∀ item ∈ items, item.1.ident.length ≤ item.1.digits ∧ ∀ c ∈ item.1.ident, c.toNat < 128)
+    (hlen : ∀ item ∈ items, item.1.fields.length = item.2.length ∧ RegDef.isEmpty item.2 = false)
+    (hdom : ∀ item ∈ items, ∀ fv ∈ item.1.fields.zip item.2,
+      Spec.C09.fieldInDomain fv.1 fv.2 = true ∧ Props.C09.DateFmtsOk fv.1) :
+    ∃ obs, run .binary items = some obs ∧ Spec.C10.holds .binary items obs = true := by
+  apply binary items
+  intro item hitem
+  exact ⟨hcont item hitem, (hid item hitem).1, (hid item hitem).2, (hlen item hitem).1, (hlen item hitem).2,
+    fun fv hfv => Props.C09.binLaw_of_domain_all fv.1 fv.2 (hdom item hitem fv hfv).1 (hdom item hitem fv hfv).2⟩
 
 end Props.C10
